@@ -354,6 +354,12 @@ def oracle(impl, op, before_disk, after_disk, exc):
                         {"size": size, "count": count, "duration": dur},
                         {"path": path, "channel_count": len(same), "channel_span_ms": max(same) - min(same),
                          "sum_of_tracked_sizes": true_size, "active_size": pre["act"]}))
+    # a file the handler deleted in this step is not tracked after the step (unless it is on disk again)
+    for path, _pre in impl.removed:
+        if path in hd.records and path not in after_disk:
+            out.append(("tracks-a-file-it-deleted", "the handler deleted a file and tracks it afterwards (a ghost: counted, never on disk)",
+                        "not tracked", path))
+            break
     # files may leave the disk only through a logged deletion (or the step's own env removal)
     gone = set(before_disk) - set(after_disk)
     allowed = set(p for p, _ in impl.removed)
